@@ -3,6 +3,7 @@
    model below mirrors WHERE the real checker resets / overwrites its scratch fields
    (see gen/StateInventory.v for the regenerated list of fields and write sites). No proofs here. *)
 From GC Require Import Base Model_Walk.
+From Coq Require Import DecimalString.
 
 (* ---- the run of a long-lived checker over a history ---- *)
 Section LongLived.
@@ -22,6 +23,14 @@ Section LongLived.
     | cf :: r => let (s1, w) := run (fst cf) s (snd cf) in (w ++ cli_from s1 r)%list
     end.
   Definition cli_run (h : list (C * F)) : list warning := cli_from scratch0 h.
+
+  (* the same run, visit by visit: what ONE instance returns from each Check of the history *)
+  Fixpoint visits_from (s : S) (h : list (C * F)) : list (list warning) :=
+    match h with
+    | [] => []
+    | cf :: r => let (s1, w) := run (fst cf) s (snd cf) in w :: visits_from s1 r
+    end.
+  Definition visits (h : list (C * F)) : list (list warning) := visits_from scratch0 h.
 End LongLived.
 
 (* ---- 1. linter.Checker: the warning buffer is truncated at the start of every Check ---- *)
@@ -77,26 +86,25 @@ Fixpoint count_ifelse (cur : link) (rest : list link) (eb : bool) (vis : list N)
   | e :: rest' => count_ifelse e rest' eb (l_id e :: vis) (count + 1)
   | [] => if eb then ((count + 1)%N, vis) else (count, vis)
   end.
-Fixpoint iec_links (thr : N) (s : iec) (ls : list link) (eb : bool) : iec * list warning :=
+(* VisitStmt(stmt): if c.visited[stmt] { return }; c.cause = stmt; c.checkIfStmt(stmt) -- for the IfStmt at the head of [ls] *)
+Definition iec_head (thr : N) (s : iec) (ls : list link) (eb : bool) : iec * list warning :=
   match ls with
   | [] => (s, [])
   | cur :: rest =>
-      let '(s1, w1) :=
-        if memN (l_id cur) (iec_visited s) then (s, [])
-        else let '(n, vis) := count_ifelse cur rest eb (iec_visited s) 0 in
-             let s' := {| iec_cause := l_pos cur; iec_visited := vis |} in
-             (s', if (thr <=? n)%N then [(iec_cause s', "rewrite if-else to switch statement")] else []) in
-      let '(s2, w2) := iec_links thr s1 rest eb in (s2, (w1 ++ w2)%list)
+      if memN (l_id cur) (iec_visited s) then (s, [])
+      else let '(n, vis) := count_ifelse cur rest eb (iec_visited s) 0 in
+           let s' := {| iec_cause := l_pos cur; iec_visited := vis |} in
+           (s', if (thr <=? n)%N then [(iec_cause s', "rewrite if-else to switch statement")] else [])
   end.
 Definition iec_visit (thr : N) (s : iec) (x : stmt) : iec * list warning :=
-  match x with SIfChain ls eb => iec_links thr s ls eb | _ => (s, []) end.
+  match x with SIfChain ls eb => iec_head thr s ls eb | _ => (s, []) end.
 Definition iec_enter (s : iec) : iec := {| iec_cause := iec_cause s; iec_visited := [] |}.   (* c.visited = make(...) *)
 Definition iec_on_decl (thr : N) := stmt_on_decl iec_enter (iec_visit thr).
 Definition iec_run (thr : N) (s : iec) (f : file) := walk (iec_on_decl thr) s f.
 
 (* ---- 4. typeAssertChain: visited (EnterFunc), typeSet (Clear in countTypeAssertions), cause ---- *)
 Record tac := { tac_cause : N; tac_visited : list N; tac_types : list shape }.
-(* counts the assertions of the chain starting after [first]; returns 0 on a duplicated type *)
+(* countTypeAssertions after the first link: 0 on a duplicated type AND on a mixed chain (different asserted operand) *)
 Fixpoint count_asserts (x : shape) (rest : list link) (vis : list N) (types : list shape) (count : N) : N * list N * list shape :=
   match rest with
   | [] => (count, vis, types)
@@ -105,27 +113,26 @@ Fixpoint count_asserts (x : shape) (rest : list link) (vis : list N) (types : li
       | None => (count, vis, types)
       | Some (x', ty) =>
           if memN ty types then (0%N, vis, types)
-          else if negb (N.eqb x x') then (count, vis, (types ++ [ty])%list)
+          else if negb (N.eqb x x') then (0%N, vis, (types ++ [ty])%list)
           else count_asserts x rest' (l_id e :: vis) (types ++ [ty])%list (count + 1)
       end
   end.
-Fixpoint tac_links (s : tac) (ls : list link) : tac * list warning :=
+(* VisitStmt for the IfStmt at the head of [ls]; l_assert = getTypeAssert(ifstmt) (Some only when Init is `v, ok := x.(T)` and Cond is ok) *)
+Definition tac_head (s : tac) (ls : list link) : tac * list warning :=
   match ls with
   | [] => (s, [])
   | cur :: rest =>
-      let '(s1, w1) :=
-        match l_assert cur with
-        | Some (x, ty) =>
-            if memN (l_id cur) (tac_visited s) || negb (l_init cur) then (s, [])
-            else let '(n, vis, tys) := count_asserts x rest (tac_visited s) [ty] 1 in   (* typeSet.Clear(); Insert(first) *)
-                 let s' := {| tac_cause := l_pos cur; tac_visited := vis; tac_types := tys |} in
-                 (s', if (2 <=? n)%N then [(tac_cause s', "rewrite if-else to type switch statement")] else [])
-        | None => (s, [])
-        end in
-      let '(s2, w2) := tac_links s1 rest in (s2, (w1 ++ w2)%list)
+      if memN (l_id cur) (tac_visited s) || negb (l_init cur) then (s, [])
+      else match l_assert cur with
+           | None => (s, [])
+           | Some (x, ty) =>
+               let '(n, vis, tys) := count_asserts x rest (tac_visited s) [ty] 1 in   (* typeSet.Clear(); Insert(first) *)
+               let s' := {| tac_cause := l_pos cur; tac_visited := vis; tac_types := tys |} in
+               (s', if (2 <=? n)%N then [(tac_cause s', "rewrite if-else to type switch statement")] else [])
+           end
   end.
 Definition tac_visit (s : tac) (x : stmt) : tac * list warning :=
-  match x with SIfChain ls _ => tac_links s ls | _ => (s, []) end.
+  match x with SIfChain ls _ => tac_head s ls | _ => (s, []) end.
 Definition tac_enter (s : tac) : tac := {| tac_cause := tac_cause s; tac_visited := []; tac_types := tac_types s |}.
 Definition tac_on_decl := stmt_on_decl tac_enter tac_visit.
 Definition tac_run (_ : unit) (s : tac) (f : file) := walk tac_on_decl s f.
@@ -142,15 +149,22 @@ Definition dc_visit (set : list shape) (x : stmt) : list shape * list warning :=
   match x with SSwitch _ cs => dup_scan "case is duplicated" [] cs | _ => (set, []) end.       (* c.astSet.Clear() *)
 Definition dc_visit_noclear (set : list shape) (x : stmt) : list shape * list warning :=
   match x with SSwitch _ cs => dup_scan "case is duplicated" set cs | _ => (set, []) end.      (* seeded defect *)
+(* checkWhitespace (stateless, at most one warning) then checkDuplicates (astSet.Clear() first) *)
 Definition mk_visit (set : list shape) (x : stmt) : list shape * list warning :=
-  match x with SLit _ ks => dup_scan "suspicious duplicate key" [] ks | _ => (set, []) end.
+  match x with
+  | SLit _ ws ks =>
+      let w0 := match ws with Some p => [(p, "suspicious whitespace key")] | None => [] end in
+      let '(s1, w1) := dup_scan "suspicious duplicate key" [] ks in (s1, (w0 ++ w1)%list)
+  | _ => (set, [])
+  end.
 Definition dc_on_decl := stmt_on_decl (fun s : list shape => s) dc_visit.
 Definition dc_on_decl_noclear := stmt_on_decl (fun s : list shape => s) dc_visit_noclear.
-Definition mk_on_decl := stmt_on_decl (fun s : list shape => s) mk_visit.
+Definition mk_on_decl := expr_on_decl (fun s : list shape => s) mk_visit.      (* WalkerForExpr: every declaration *)
 Definition dc_run (_ : unit) (s : list shape) (f : file) := walk dc_on_decl s f.
 Definition mk_run (_ : unit) (s : list shape) (f : file) := walk mk_on_decl s f.
 
 (* ---- 6. typeSwitchVar: count reset at every type switch ---- *)
+Definition dec (n : N) : string := NilEmpty.string_of_uint (N.to_uint n).      (* %d *)
 Definition count_true (l : list bool) : N := N.of_nat (length (filter (fun b => b) l)).
 Definition tsv_visit (count : N) (x : stmt) : N * list warning :=
   match x with
@@ -158,8 +172,8 @@ Definition tsv_visit (count : N) (x : stmt) : N * list warning :=
       let c0 := 0%N in                                      (* c.count = 0 *)
       if guarded then (c0, [])
       else let c1 := (c0 + count_true hits)%N in
-           (c1, if (0 <? c1)%N then [(p, if (1 <? c1)%N then "cases can benefit from type switch with assignment"
-                                          else "case can benefit from type switch with assignment")] else [])
+           (c1, if (0 <? c1)%N then [(p, dec c1 ++ (if (1 <? c1)%N then " cases can benefit from type switch with assignment"
+                                                     else " case can benefit from type switch with assignment"))] else [])
   | _ => (count, [])
   end.
 Definition tsv_on_decl := stmt_on_decl (fun c : N => c) tsv_visit.
@@ -169,7 +183,7 @@ Definition tsv_run (_ : unit) (s : N) (f : file) := walk tsv_on_decl s f.
 Definition tdf_decl (tracked : list string) (d : decl) : list string * list warning :=
   match d with
   | DFunc _ _ (Some r) _ _ => (r :: tracked, [])
-  | DType p ns => (tracked, flat_map (fun n => if mem n tracked then [(p, "definition of type should appear before its methods")] else []) ns)
+  | DType p ns => (tracked, flat_map (fun n => if mem n tracked then [(p, "definition of type '" ++ n ++ "' should appear before its methods")] else []) ns)
   | _ => (tracked, [])
   end.
 Definition tdf_run (_ : unit) (tracked : list string) (f : file) : list string * list warning :=
